@@ -301,7 +301,8 @@ func (o *vectorOperator) Next(ctx context.Context) ([]model.StepVector, error) {
 // drain consumes the rest of the stream of an operator, batch being the last
 // batch it returned.
 func drain(ctx context.Context, op model.VectorOperator, batch []model.StepVector) error {
-	for len(batch) > 0 {
+	// An empty batch is not the end of a stream, only nil is.
+	for batch != nil {
 		for _, vector := range batch {
 			op.GetPool().PutStepVector(vector)
 		}
